@@ -524,6 +524,9 @@ func ruleC09WordToken(c *Ctx) {
 			c.Fail("c09.word-token", "pattern/"+name, "-", "the selector pattern does not parse: "+err.Error())
 			continue
 		}
+		if !mentionsLetters(re) {
+			continue // a pattern that has nothing to do with keys (digits, punctuation only)
+		}
 		c.Check(acceptsAllWords(re), "c09.word-token", "pattern/"+name, c.P.Pos(sc.Lookup(name).Pos()), "an alternative matches every run of word characters", "no alternative of "+name+" matches every run of word characters: a key such as `2024` or `1st` is skipped or cut by the tokenizer and the column reads another key (or the whole row)")
 	}
 	if n < 3 {
@@ -541,4 +544,23 @@ func isFreshSliceTerm(t *Term) bool {
 		return true
 	}
 	return t.Op == "slice" && len(t.Args) > 0 && t.Args[0].Op == "alloc" && (strings.HasPrefix(t.Args[0].Name, "makeslice") || strings.HasPrefix(t.Args[0].Name, "slicelit"))
+}
+
+
+// mentionsLetters: some character class of the pattern contains the lower-case letters (the pattern tokenises names).
+func mentionsLetters(re *syntax.Regexp) bool {
+	if re.Op == syntax.OpCharClass {
+		for i := 0; i+1 < len(re.Rune); i += 2 {
+			if re.Rune[i] <= 'a' && 'z' <= re.Rune[i+1] {
+				return true
+			}
+		}
+		return false
+	}
+	for _, s := range re.Sub {
+		if mentionsLetters(s) {
+			return true
+		}
+	}
+	return false
 }
